@@ -1,9 +1,12 @@
 -- Root of the `Libvna` library: everything `lake build` has to check.
 import Libvna.Gen.Conv2All
+import Libvna.Props.C01
 import Libvna.Props.C04
 import Libvna.Props.C05
 import Libvna.Props.C10
 import Libvna.Props.C13
 import Libvna.Props.C14
 import Libvna.Props.C15
+import Libvna.Props.C17
+import Libvna.Props.C20
 import Libvna.Driver.Main
